@@ -29,7 +29,7 @@ def run(ctx):
     # system level: roles, dependency order, rates, scaling across components (seconds / milliseconds), implicit systems
     sysscen = os.path.join(ctx.work, "systems.scen.ndjson")
     open(sysscen, "w").close()
-    for cfg in (["Gen_n1", "Gen_n2", "Gen_n1z", "Gen_n2z"] if ctx.quick else ["Gen_n1", "Gen_n2", "Gen_n1z", "Gen_n2z", "Gen_n3run", "Gen_n3runz"]):
+    for cfg in (["Gen_n1", "Gen_n2", "Gen_n1z", "Gen_n2z", "Gen_n1u", "Gen_n2u"] if ctx.quick else ["Gen_n1", "Gen_n2", "Gen_n1z", "Gen_n2z", "Gen_n1u", "Gen_n2u", "Gen_n3run", "Gen_n3runz"]):
         part = ctx.gen("System", "Gen_System.tla", cfg + ".cfg", cfg, workers=8, timeout=3000, heap="12g")
         with open(sysscen, "a") as out:
             for line in open(part):
